@@ -52,6 +52,12 @@ class Machine:
             if r in ("self.fmt", "self.formatter", "self.buf"):
                 return self.self.get("__sink__", "fmt")
             raise Unsupported(f"sink `{r}`")
+        if k == "Expr::Call" and A.kind(e["func"]) == "Expr::Path":
+            # an adapter built in place: `Padded::new(self.fmt).write_str(..)`
+            fn_ = A.path_str(e["func"]) or ""
+            if fn_.split("::")[-1] in ("new", "wrap") and fn_.split("::")[0] in ("Padded", "PadAdapter") and e["args"]:
+                self.target(e["args"][0], env)
+                return "pad"
         raise Unsupported(f"sink expr {k}")
 
     def bump(self, v):
